@@ -29,7 +29,9 @@ Definition folds_for (cv : cvspec) (d : dspec) : list fold :=
 Definition dataset_of (cv : cvspec) (d : dspec) : dataset :=
   {| d_name := ds_name d; d_rows := ds_rows d; d_folds := folds_for cv d |}.
 
-Record runspec := { r_fresh : bool; r_flags : flags; r_fail : failpt }.
+(* r_sel: the names of the strategies / datasets the run's Orchestrator is built with (a later run
+   may use a sub-grid: the master file then has to keep the names of the earlier runs) *)
+Record runspec := { r_fresh : bool; r_flags : flags; r_fail : failpt; r_sel : list Z * list Z }.
 (* a call received by a test double: (is_fit, estimator parameter, xs, ys) (ys = [] for predict) *)
 Definition call := (bool * Z * list Z * list Z)%type.
 Record obs := { o_status : Z;                          (* 0 done, 1 crashed, 2 rejected, 3 not implemented *)
@@ -103,13 +105,19 @@ Definition calls_of (ev : list event) : list call :=
 Definition status_code (o : outcome) : Z :=
   match o with Done => 0 | Crash => 1 | Rejected => 2 | NotImplemented => 3 end.
 
-Definition model_run (hdd reg : bool) (l : list task) (r : runspec) (st : store)
-  : store * list event * outcome :=
-  run dbl_fit (dbl_pred reg) hdd (r_flags r) (r_fail r) l (if r_fresh r then fresh hdd st else st).
+Record gridspec := { g_strats : list strategy; g_data : list dspec; g_cv : cvspec }.
+Definition sel_tasks (g : gridspec) (sel : list Z * list Z) : list task :=
+  tasks_of (filter (fun s => mem (fst s) (fst sel)) (g_strats g))
+           (map (dataset_of (g_cv g)) (filter (fun d => mem (ds_name d) (snd sel)) (g_data g))).
 
-Definition check_run (hdd reg : bool) (l : list task) (dfolds : list (list fold))
+Definition model_run (hdd reg : bool) (g : gridspec) (r : runspec) (st : store)
+  : store * list event * outcome :=
+  run dbl_fit (dbl_pred reg) hdd (r_flags r) (r_fail r) (sel_tasks g (r_sel r))
+      (if r_fresh r then fresh hdd st else st).
+
+Definition check_run (hdd reg : bool) (g : gridspec) (dfolds : list (list fold))
            (r : runspec) (o : obs) (st : store) : bool * store :=
-  let '(st', ev, out) := model_run hdd reg l r st in
+  let '(st', ev, out) := model_run hdd reg g r st in
   ((status_code out =? o_status o)
    && calls_eqb (calls_of ev) (o_calls o)
    && keys_eqb (dedup_keys (writes_of ev)) (o_written o)
@@ -121,22 +129,20 @@ Definition check_run (hdd reg : bool) (l : list task) (dfolds : list (list fold)
    && forallb (fun p => folds_eqb (fst p) (snd p)) (combine dfolds (o_folds o)),
    st').
 
-Fixpoint check_runs (hdd reg : bool) (l : list task) (dfolds : list (list fold))
+Fixpoint check_runs (hdd reg : bool) (g : gridspec) (dfolds : list (list fold))
          (runs : list (runspec * obs)) (st : store) : bool :=
   match runs with
   | [] => true
   | (r, o) :: rest =>
-      let '(ok, st') := check_run hdd reg l dfolds r o st in
-      ok && check_runs hdd reg l dfolds rest st'
+      let '(ok, st') := check_run hdd reg g dfolds r o st in
+      ok && check_runs hdd reg g dfolds rest st'
   end.
-
-Definition case_tasks (strats : list strategy) (data : list dspec) (cv : cvspec) : list task :=
-  tasks_of strats (map (dataset_of cv) data).
 
 Definition check (c : case) : bool :=
   match c with
   | Case hdd reg strats data cv runs =>
-      check_runs hdd reg (case_tasks strats data cv) (map (folds_for cv) data) runs empty_store
+      check_runs hdd reg {| g_strats := strats; g_data := data; g_cv := cv |}
+                 (map (folds_for cv) data) runs empty_store
   end.
 
 Fixpoint mism (cs : list (Z * case)) : list Z :=
@@ -146,11 +152,11 @@ Fixpoint mism (cs : list (Z * case)) : list Z :=
   end.
 
 (* what the model says for a whole history (for replay files) *)
-Fixpoint model_history (hdd reg : bool) (l : list task) (rs : list runspec) (st : store)
+Fixpoint model_history (hdd reg : bool) (g : gridspec) (rs : list runspec) (st : store)
   : list (Z * list call * list key * store) :=
   match rs with
   | [] => []
   | r :: rest =>
-      let '(st', ev, out) := model_run hdd reg l r st in
-      (status_code out, calls_of ev, writes_of ev, st') :: model_history hdd reg l rest st'
+      let '(st', ev, out) := model_run hdd reg g r st in
+      (status_code out, calls_of ev, writes_of ev, st') :: model_history hdd reg g rest st'
   end.
